@@ -97,7 +97,10 @@ def rule(chk, rule_id, mods):
                     return 0
                 return None
             try:
-                rr = irskel.run(F, args, mem_init, enter=enter, extern=extern, keep=lambda cal: bool(re.match(r"^_\w+_(mb|sb)_mgr_submit_\w+$", cal)))
+                try:
+                    rr = irskel.run(F, args, mem_init, enter=enter, extern=extern, keep=lambda cal: bool(re.match(r"^_\w+_(mb|sb)_mgr_submit_\w+$", cal)))
+                except irskel.Unknown:
+                    rr = irskel.run(F, args, mem_init, enter=enter, extern=extern, keep=lambda cal: bool(re.match(r"^_\w+_(mb|sb)_mgr_submit_\w+$", cal)), unknown_dir=1)
             except irskel.Unknown as e:
                 chk.broke("%s: IR skeleton not followed for flags = %d, carried = %d, len = %d: %s" % (F.name, flags, P, L, e))
                 break
